@@ -53,6 +53,18 @@ func (w *c02World) line(c *Ctx, in string) {
 			return "ok"
 		})
 		c.Emit("%s => %s", in, out)
+	case "task": // task <id> <taskid hex8> <delay> <jitter>: the operator's path, TaskPrepare + AddJobToQueue as dispatch.go does
+		a := w.agents[parts[1]]
+		out := guard(func() string {
+			msg := map[string]string{}
+			job, err := a.TaskPrepare(agent.COMMAND_SLEEP, map[string]interface{}{"TaskID": parts[2], "CommandLine": "sleep", "Arguments": parts[3] + ";" + parts[4]}, &msg, "client", w.ts)
+			if err != nil || job == nil {
+				return "ERR"
+			}
+			a.AddJobToQueue(*job)
+			return fmt.Sprintf("ok req=%d", job.RequestID)
+		})
+		c.Emit("%s => %s", in, out)
 	case "checkin": // checkin <id>
 		id64, _ := strconv.ParseUint(parts[1], 16, 32)
 		k := w.keys[parts[1]]
@@ -104,6 +116,11 @@ func runC02(c *Ctx) {
 			nj := r.Intn(5)
 			for j := 0; j < nj; j++ {
 				id := ids[r.Intn(len(ids))]
+				if r.Chance(1, 5) { // through the operator's path: the task id the operator was told is the request id
+					c.Count("task.prepare")
+					w.line(c, fmt.Sprintf("task %s %08x %d %d", id, r.U32(), r.Intn(3600), r.Intn(101)))
+					continue
+				}
 				na := r.Intn(5)
 				if r.Chance(1, 4) {
 					na = 0 // empty body task (e.g. checkin, proc list)
